@@ -2,6 +2,7 @@
 package main
 
 import (
+	"fmt"
 	"math/big"
 	"strings"
 )
@@ -450,6 +451,11 @@ func (r *rng) soupOp(total int) []byte {
 	if r.chance(1, 40) {
 		op = byte(r.below(256))
 	}
+	if r.chance(1, 12) {
+		// an opcode of the pickle protocols that this decoder does not implement, with the payload a standard
+		// pickler would write after it: whatever a tree does with it, the answer must be a value or an error
+		return r.foreignOp()
+	}
 	out := []byte{op}
 	name := func() string {
 		switch r.below(8) {
@@ -509,6 +515,49 @@ func (r *rng) soupOp(total int) []byte {
 		out = append(out, s...)
 	}
 	return out
+}
+
+// foreignOp: opcodes of pickle protocols 0-5 outside this codec's subset (explicit memo slots, text-mode ops, frames,
+// object construction), each followed by a plausible payload and, for the memo ops, often by a fetch of a nearby slot.
+func (r *rng) foreignOp() []byte {
+	line := func(s string) []byte { return append([]byte(s), '\n') }
+	small := func() byte { return byte(r.below(5)) }
+	switch r.below(16) {
+	case 0, 1, 2: // BINPUT n [BINGET m]
+		out := []byte{'q', small()}
+		if r.chance(2, 3) {
+			out = append(out, 'h', small())
+		}
+		return out
+	case 3, 4: // LONG_BINPUT n [LONG_BINGET m]
+		out := append([]byte{'r'}, le32(r.below(5))...)
+		if r.chance(2, 3) {
+			out = append(append(out, 'j'), le32(r.below(5))...)
+		}
+		return out
+	case 5: // PUT / GET, text mode
+		return append(append([]byte{'p'}, line(fmt.Sprint(r.below(5)))...), append([]byte{'g'}, line(fmt.Sprint(r.below(5)))...)...)
+	case 6: // PROTO, FRAME
+		return append([]byte{0x80, byte(2 + r.below(4)), 0x95}, 8, 0, 0, 0, 0, 0, 0, 0)
+	case 7: // POP, POP_MARK, DUP
+		return []byte{"012"[r.below(3)]}
+	case 8: // text-mode scalars
+		return [][]byte{append([]byte{'L'}, line("12L")...), append([]byte{'F'}, line("1.5")...), append([]byte{'S'}, line("'abc'")...), append([]byte{'V'}, line("abc")...)}[r.below(4)]
+	case 9: // LONG1, LONG4
+		return [][]byte{{0x8a, 2, 0x39, 0x30}, {0x8b, 1, 0, 0, 0, 7}}[r.below(2)]
+	case 10: // SHORT_BINSTRING, BINSTRING, BINUNICODE8, BINBYTES8, BYTEARRAY8
+		return [][]byte{{'U', 2, 'a', 'b'}, {'T', 2, 0, 0, 0, 'a', 'b'}, {0x8d, 1, 0, 0, 0, 0, 0, 0, 0, 'a'}, {0x8e, 1, 0, 0, 0, 0, 0, 0, 0, 'a'}, {0x96, 1, 0, 0, 0, 0, 0, 0, 0, 'a'}}[r.below(5)]
+	case 11: // LIST, DICT, SETITEM, FROZENSET (mark-based and pairwise container ops)
+		return []byte{"lds"[r.below(3)]}
+	case 12:
+		return []byte{0x91}
+	case 13: // GLOBAL, REDUCE, BUILD, OBJ, INST, NEWOBJ_EX, STACK_GLOBAL-less construction
+		return [][]byte{append(append([]byte{'c'}, line("m")...), line("x")...), {'R'}, {'b'}, {'o'}, append(append([]byte{'i'}, line("m")...), line("x")...), {0x92}}[r.below(6)]
+	case 14: // EXT1/2/4, PERSID, BINPERSID
+		return [][]byte{{0x82, 1}, {0x83, 1, 0}, {0x84, 1, 0, 0, 0}, append([]byte{'P'}, line("id")...), {'Q'}}[r.below(5)]
+	default: // out-of-band buffers
+		return []byte{[]byte{0x97, 0x98}[r.below(2)]}
+	}
 }
 
 // grammar-guided soup: mostly well-formed fragments so that deep states are reached, with hostile ops mixed in
